@@ -652,6 +652,7 @@ def run(rd, emit, log, enum_values, ti_default):
     # and what it assigns to their Sandboxed.  A frame constructed later is ABOVE on the thread's frame stack, and callee
     # frames inherit Sandboxed from the stack top.
     decls = []
+    decls3 = []
     for path, sigs in (('lib/remote/filterutility.cpp', [('FilteredAddTarget', r'static\s+void\s+FilteredAddTarget\s*\('),
                                                          ('FilterUtility::EvaluateFilter', r'bool\s+FilterUtility::EvaluateFilter\s*\('),
                                                          ('FilterUtility::GetFilterTargets', r'FilterUtility::GetFilterTargets\s*\(')]),
@@ -668,9 +669,30 @@ def run(rd, emit, log, enum_values, ti_default):
                 var = m.group(1)
                 ms = re.findall(r'\b' + var + r'\s*\.\s*Sandboxed\s*=\s*(\w+)\s*;', fb[m.end():])
                 decls.append((fname, var, ms[-1] if ms else 'unset'))
+                cargs = split_args(m.group(2))
+                decls3.append((fname, var, cargs[2] if len(cargs) >= 3 else 'none', ms[-1] if ms else 'unset'))
     body += '(* (function, frame variable, last value assigned to its Sandboxed) in source order *)\n'
     body += 'Definition f_sb_frame_decls : list (string * (string * string)) := %s.\n\n' % blist(
         ['(%s, (%s, %s))' % (coqs(a), coqs(b), coqs(c)) for a, b, c in decls])
+    # what the ScriptFrame CONSTRUCTOR is handed at each site (a flag passed there is overwritten by InitializeFrame, which copies
+    # Sandboxed from the frame on top of the thread's stack whenever the stack is not empty; an assignment after construction wins)
+    body += '(* (function, (frame variable, (third constructor argument or "none", last value assigned to Sandboxed afterwards or "unset"))) *)\n'
+    body += 'Definition f_sb_frame_decls3 : list (string * (string * (string * string))) := %s.\n\n' % blist(
+        ['(%s, (%s, (%s, %s)))' % (coqs(a), coqs(b), coqs(c), coqs(d)) for a, b, c, d in decls3])
+    sfh = strip_comments(rd('lib/base/scriptframe.hpp'))
+    third = False
+    for m in re.finditer(r'ScriptFrame::ScriptFrame\s*\(([^)]*)\)\s*:([^{]*)\{', sf):
+        params = split_args(m.group(1))
+        if len(params) >= 3:
+            pn = re.findall(r'(\w+)\s*(?:=[^,]*)?$', params[2].strip())
+            if pn and re.search(r'\bSandboxed\s*[\({]\s*' + pn[0] + r'\s*[\)}]', m.group(2)):
+                third = True
+    body += '(* some ScriptFrame constructor takes a third parameter that initialises Sandboxed *)\n'
+    body += 'Definition f_sb_frame_ctor_third_is_flag : bool := %s.\n' % ('true' if third else 'false')
+    ctor_n = len(re.findall(r'ScriptFrame::ScriptFrame\s*\(', sf))
+    init_n = len(re.findall(r'\bInitializeFrame\s*\(\s*\)\s*;', sf))
+    body += '(* every ScriptFrame constructor calls InitializeFrame(): (constructors, calls) *)\n'
+    body += 'Definition f_sb_frame_ctor_counts : Z * Z := (%d, %d).\n\n' % (ctor_n, init_n)
     frame_sites('lib/remote/filterutility.cpp', 'filterutility')
     frame_sites('lib/remote/eventqueue.cpp', 'eventqueue')
     frame_sites('lib/remote/consolehandler.cpp', 'consolehandler')
